@@ -106,7 +106,7 @@ pub fn cmd_ser(args: &[String]) -> i32 {
                     let msgs_json = v["msgs"].as_array().cloned().unwrap_or_default();
                     let stores: Vec<Store> = msgs_json.iter().map(store_for_msg).collect();
                     let msgs: Vec<TlsMessage> = msgs_json.iter().zip(stores.iter()).map(|(m, s)| msg_of(m, s)).collect();
-                    let rec = TlsPlaintext { hdr: TlsRecordHeader { record_type: TlsRecordType(num(&v["ct"]) as u8), version: TlsVersion(num(&v["ver"]) as u16), len: 0 }, msg: msgs };
+                    let rec = TlsPlaintext { hdr: TlsRecordHeader { record_type: TlsRecordType(num(&v["ct"]) as u8), version: TlsVersion(num(&v["ver"]) as u16), len: num(&v["len"]) as u16 }, msg: msgs };
                     match rec.serialize() {
                         Err(e) => json!({"ok": false, "err": generr(e)}),
                         Ok(b) => match parse_tls_plaintext(&b) {
@@ -118,6 +118,27 @@ pub fn cmd_ser(args: &[String]) -> i32 {
                                        "hdr": {"ct": p.hdr.record_type.0, "ver": p.hdr.version.0, "len": p.hdr.len}})
                             }
                             Err(e) => json!({"ok": true, "bytes": b, "parsed": {"error": format!("{:?}", e)}, "consumed": 0, "bytes2": "error", "direct": b}),
+                        },
+                    }
+                }
+                "from_bytes" => {
+                    // a value obtained by parsing a valid record, then serialized
+                    let input = bytes(&v["bytes"]);
+                    match parse_tls_plaintext(&input) {
+                        Err(e) => json!({"ok": false, "err": format!("input does not parse: {:?}", e)}),
+                        Ok((_, rec)) => match rec.serialize() {
+                            Err(e) => json!({"ok": false, "err": generr(e)}),
+                            Ok(b) => match parse_tls_plaintext(&b) {
+                                Ok((rem, p)) => {
+                                    let mut pv = pj::msgs(&p.msg);
+                                    pj::materialize(&mut pv, &b);
+                                    let b2 = p.serialize().map(|x| json!(x)).unwrap_or(json!("error"));
+                                    json!({"ok": true, "bytes": b, "parsed": pv, "consumed": b.len() - rem.len(), "bytes2": b2, "direct": b,
+                                           "hdr": {"ct": p.hdr.record_type.0, "ver": p.hdr.version.0, "len": p.hdr.len}})
+                                }
+                                Err(e) => json!({"ok": true, "bytes": b, "parsed": {"error": format!("{:?}", e)}, "consumed": 0, "bytes2": "error", "direct": b,
+                                                 "hdr": {"ct": 0, "ver": 0, "len": 0}}),
+                            },
                         },
                     }
                 }
